@@ -104,8 +104,11 @@ def run_property(prop_id, module, tier, explain=None):
         counts = {}
         for i in inst:
             counts[i["rule"]] = counts.get(i["rule"], 0) + 1
+        has_violation = any(i["outcome"] == "violation" for i in inst)
         for rid, floor in rep.floors.items():
-            if counts.get(rid, 0) < floor:
+            # floors guard against vacuous PASSES; a run that already reports a violation exits 1 anyway, and the
+            # violated construct may legitimately prevent dependent rules from being instantiated
+            if counts.get(rid, 0) < floor and not has_violation:
                 raise AnalysisBroken("rule %s matched %d instance(s) on the tree, below its confirmed floor %d "
                                      "(anchor moved or extractor/loader no longer sees it)" % (rid, counts.get(rid, 0), floor))
         for rid in rep.rules:
